@@ -13,7 +13,7 @@ from ..avm.ctx import ASSUMPTIONS
 from ..avm.engine import Engine, HarnessError
 from ..avm.sym import Bounds, SymAVM
 from ..common import Report, from_json, run_jobs, seed, tier, to_json, write_evidence
-from ..recipe import gen, gen_const, gen_fields, gen_opt, gen_subs
+from ..recipe import gen, gen_const, gen_fields, gen_ill, gen_opt, gen_subs
 from ..teal.parse import TealSyntaxError, check_program, parse
 from .. import cfgcheck, features, tv, tvjob
 
@@ -121,6 +121,9 @@ def build_jobs(t, sd):
             if v >= 3 and mode == "A":
                 fams += gen_opt.opt_family(mode, v, False)[:: (2 if thorough else 7)]
                 fams += gen_const.const_family(mode, v, sd, False)[::3]
+            # source programs that break a typing rule: nothing is demanded when they are rejected, but an
+            # accepted one must be as disciplined as any other program
+            fams += gen_ill.ill_family(mode, v)
             if thorough:
                 fams += gen.random_family(mode, v, sd, 30)
             for (name, rec, opts) in fams:
